@@ -1,6 +1,6 @@
 (* C35 — proofs over Model/C35.v *)
 From Coq Require Import ZArith List Bool Lia ZifyBool.
-From PV Require Import Bytes C39 C39_proofs C35.
+From PV Require Import Bytes C39 C39_proofs C35_gen C35.
 Import ListNotations.
 Open Scope Z_scope.
 
@@ -229,7 +229,7 @@ Section P.
     lookup (strip_cert a) rsa_hashes = Some h /\ ascii (strip_cert a) = true /\
     bytes_ok (strip_cert a) = true.
   Proof.
-    unfold rsa_hashes. cbn [lookup].
+    unfold rsa_hashes, gen_rsa_hashes. cbn [lookup].
     repeat match goal with
            | |- (if zlist_eqb a ?n then _ else _) = _ -> _ =>
                destruct (zlist_eqb a n) eqn:E;
